@@ -111,50 +111,99 @@ func (x *Exec) checkEnsures(st *State, fr *Frame, res Val) {
 	x.checkFrame(st, fr, c, "return")
 }
 
-// checkFrame: every heap array that differs from its entry version must be covered by the modifies clause.
+// checkFrame: every heap array that differs from its entry version may differ only at the references named by
+// the modifies clause (evaluated in the entry state), at freshly allocated references, and at nil.
 func (x *Exec) checkFrame(st *State, fr *Frame, c *Contract, at string) {
 	if !c.HasMod {
 		return // no frame claimed
 	}
-	ms := newModset()
-	x.contractMods(c, ms)
-	if ms.all {
-		return
+	for _, l := range c.Modifies {
+		if l == "*" {
+			return
+		}
 	}
 	if st.epoch != st.entry.epoch {
 		x.oblige(st, fmt.Sprintf("%s/frame", x.curFunc), "frame", nil, tFalse, fr.fn.Pos(), "whole heap was havocked but the contract has a modifies clause")
 		return
 	}
-	for _, k := range sortedKeys(st.heap) {
-		cur := st.heap[k]
-		covered := false
-		for m := range ms.keys {
-			if markMatches(m, k) {
-				covered = true
-			}
-		}
-		if strings.HasPrefix(k, "elem:") && ms.elems || strings.HasPrefix(k, "map:") && ms.maps {
-			covered = true
-		}
-		if covered {
+	// allowed (key, ref) pairs
+	allowed := map[string][]Term{}
+	elemsAllowed := map[string][]Term{}
+	mapsAll := false
+	env := x.exitEnv(st, fr, c)
+	env.inOld = true
+	for _, loc := range c.Modifies {
+		if _, isGhost := x.ghostSort(loc); isGhost {
 			continue
 		}
+		if i := strings.Index(loc, "["); i >= 0 {
+			if _, isGhost := x.ghostSort(loc[:i]); isGhost {
+				continue
+			}
+		}
+		lv := x.evalLoc(env, loc, c)
+		switch l := lv.(type) {
+		case FieldPtr:
+			x.flattenField(st, l.Ref, l.S, l.SN, l.Idx, allowed)
+		case wholeStructLoc:
+			for i := 0; i < l.S.NumFields(); i++ {
+				x.flattenField(st, l.Ref, l.S, l.SN, i, allowed)
+			}
+		case elemsLoc:
+			keys, _, _ := st.elemKeys(l.elem)
+			for _, k := range keys {
+				elemsAllowed[k] = append(elemsAllowed[k], l.arr)
+			}
+		case mapLoc:
+			mapsAll = true
+		}
+	}
+	st.declareOnce("is_fresh", "(declare-fun is_fresh (Ref) Int)")
+	for _, k := range sortedKeys(st.heap) {
+		cur := st.heap[k]
 		el := arrayElemSort(cur.Sort)
 		entry := st.snapArr(st.entry, k, el)
 		if entry.S == cur.S {
 			continue
 		}
-		if strings.HasPrefix(k, "elem:") || strings.HasPrefix(k, "map:") || strings.HasPrefix(k, "box.") {
-			// element stores / fresh maps: only entry-allocated backing stores are framed
-			st.declareOnce("is_fresh", "(declare-fun is_fresh (Ref) Int)")
-			goal := Term{S: "(forall ((r! Ref)) (=> (= (is_fresh r!) 0) (= (select " + cur.S + " r!) (select " + entry.S + " r!))))", Sort: sBool}
-			x.oblige(st, fmt.Sprintf("%s/frame:%s", x.curFunc, k), "frame", nil, goal, fr.fn.Pos(), "pre-existing "+k+" unchanged (not in modifies)")
+		if strings.HasPrefix(k, "map:") && mapsAll {
 			continue
 		}
-		st.declareOnce("is_fresh", "(declare-fun is_fresh (Ref) Int)")
-		goal := Term{S: "(forall ((r! Ref)) (=> (= (is_fresh r!) 0) (= (select " + cur.S + " r!) (select " + entry.S + " r!))))", Sort: sBool}
-		x.oblige(st, fmt.Sprintf("%s/frame:%s", x.curFunc, k), "frame", nil, goal, fr.fn.Pos(), "field "+k+" of pre-existing objects unchanged (not in modifies)")
+		var excl []string
+		excl = append(excl, "(= (is_fresh r!) 0)", "(not (= r! ref_nil))")
+		refs := allowed[k]
+		if strings.HasPrefix(k, "elem:") {
+			refs = elemsAllowed[k]
+		}
+		for _, r := range refs {
+			excl = append(excl, "(not (= r! "+r.S+"))")
+		}
+		goal := Term{S: "(forall ((r! Ref)) (=> (and " + strings.Join(excl, " ") + ") (= (select " + cur.S + " r!) (select " + entry.S + " r!))))", Sort: sBool}
+		x.oblige(st, fmt.Sprintf("%s/frame:%s", x.curFunc, k), "frame", nil, goal, fr.fn.Pos(), k+" of pre-existing objects outside the modifies clause unchanged ("+at+")")
 	}
+}
+
+// flattenField lists the heap keys (with the reference they are indexed by) that make up field i of S at ref.
+func (x *Exec) flattenField(st *State, ref Term, S *types.Struct, sn string, i int, out map[string][]Term) {
+	f := S.Field(i)
+	key := sn + "." + f.Name()
+	switch u := f.Type().Underlying().(type) {
+	case *types.Struct:
+		if !isTypeParam(f.Type()) {
+			er := st.embRef(sn, f.Name(), ref)
+			nn := structName(f.Type())
+			for k := 0; k < u.NumFields(); k++ {
+				x.flattenField(st, er, u, nn, k, out)
+			}
+			return
+		}
+	case *types.Slice:
+		for _, suf := range []string{"#arr", "#off", "#len", "#cap"} {
+			out[key+suf] = append(out[key+suf], ref)
+		}
+		return
+	}
+	out[key] = append(out[key], ref)
 }
 
 func (x *Exec) checkPanicExit(st *State, fr *Frame) {
